@@ -176,6 +176,14 @@ def parse_template(text, base_dir='.'):
                 # the template rewrites the argument-position `impl Trait` itself (manual rewrite with its reason): skip rule R6
                 cur['no_r6'] = True
                 sec = None
+            elif kw == 'subany':
+                # like `suball`, but an item where the text does not occur is left as it is (path spellings such as `super::X::` that a
+                # changed function may start to use: the rewrite must not turn their absence into a lost anchor)
+                m = re.match(r'"((?:[^"\\]|\\.)*)"\s*=>\s*"((?:[^"\\]|\\.)*)"\s+because\s+(.+)$', rest)
+                if not m:
+                    raise TemplateError('line %d: bad subany directive' % ln)
+                cur['subs'].append((m.group(1).replace('\\"', '"').replace('\\n', '\n'), m.group(2).replace('\\"', '"').replace('\\n', '\n'), m.group(3), 'any'))
+                sec = None
             elif kw == 'suball':
                 # like `sub`, for a text that occurs several times in the item (copy-pasted branches): every occurrence is rewritten
                 m = re.match(r'"((?:[^"\\]|\\.)*)"\s*=>\s*"((?:[^"\\]|\\.)*)"\s+because\s+(.+)$', rest)
@@ -474,6 +482,8 @@ def extract(node, variant, report):
         old, new, why = sub[0], sub[1], sub[2]
         every = len(sub) > 3 and sub[3]
         pos = text.find(old, search_from, it.end)
+        if pos < 0 and every == 'any':
+            continue
         if pos < 0:
             raise AnchorLost('%s: sub anchor %r not found in %s' % (node['file'], old, ' >> '.join(node['path'])))
         if every:
